@@ -1377,6 +1377,7 @@ class Interp:
             tags = tags | {("reorder-of", tuple(sorted(src)), tuple(sorted(idx.deps)))}
         elif not view and src:
             tags = tags | {("copy-of", tuple(sorted(src)))}
+        rowperm = (not view) and ("perm" in idx.tags or any("perm" in i_.tags for i_ in (idx.items or ())))
         if "maybe-int" in base.tags and kind == "arr":
             tags = tags | {"maybe-int"}
         for tg in base.tags:
@@ -1416,8 +1417,16 @@ class Interp:
         if self._is_reshape_index(idx):
             # x[None, :], x[np.newaxis], x[...]: the same values with another shape
             tags = tags | frozenset(t for t in base.tags if isinstance(t, tuple) and t[0] in ("getter-of", "saved-centroid", "val-of"))
+        first_ = idx.items[0] if (idx.kind == "indextuple" and idx.items) else None
+        if first_ is not None and first_.kind == "slice" and first_.extra is not None and first_.extra.lower is None \
+                and first_.extra.upper is None and first_.extra.step is None:
+            # x[:, cols]: every row is kept, in the same order
+            tags = tags | frozenset(t for t in base.tags if isinstance(t, tuple) and t and t[0] == "roll-given")
+        tags = tags | frozenset(t for t in base.tags if t in (("ret", "<neighbour-diff>"), ("ret", "<open-chain>")))
         v = Val(dim=dim, kind=kind, al=base.al if view else frozenset(), deps=base.deps | idx.deps,
                 pdeps=base.pdeps | idx.pdeps, tags=tags, born=base.born if view else self.time)
+        if rowperm:
+            v.deps = v.deps | {("rowperm", "*")}       # rows reordered by a sort permutation (see npmodel._given_order)
         if view and base.kind == "arr":
             v.extra = ("view", base.extra)
             if idx.has_const() and isinstance(idx.const, int) and not isinstance(idx.const, bool) and len(base.al) == 1 \
@@ -1529,14 +1538,15 @@ class Interp:
             out.tags = out.tags | ret_tags(l, r)        # set algebra keeps the provenance of its operands
         if l.kind in ("int", "float") and r.kind in ("int", "float") and out.kind in ("int", "float") and not out.has_const():
             out.tags = out.tags | ret_tags(l, r)      # arithmetic on counts keeps where the counts came from
-        oc = {t for t in (l.tags | r.tags) if t == ("ret", "<open-chain>")}
+        oc = {t for t in (l.tags | r.tags) if t in (("ret", "<open-chain>"), ("ret", "<neighbour-diff>"))}
         if oc and out.kind in ("arr", "unknown", "float"):
             out.tags = out.tags | oc
         if isinstance(op, ast.Sub):
             # x_{i+1} - x_i over the rows in the order given: a comparison of *consecutive* rows only
             for a_, b_ in ((l, r), (r, l)):
                 rg = [t for t in a_.tags if isinstance(t, tuple) and t and t[0] == "roll-given"]
-                if rg and rg[0][1] == tuple(sorted(b_.pdeps)) and rg[0][2] == tuple(sorted(b_.deps)):
+                if rg and rg[0][1] == tuple(sorted(b_.pdeps)) and \
+                        {d_ for d_ in rg[0][2] if d_[0] != "subset"} == {d_ for d_ in b_.deps if d_[0] != "subset"}:
                     out.tags = out.tags | {("ret", "<neighbour-diff>")}
         return out
 
